@@ -578,8 +578,5 @@ LAW(E_sequences, ENUM, 16, ENUM_T, 0, NT, 3, true) { static std::unordered_map<u
 // operations on the graph only (the observer of the start configuration looks on): length <= 3 quick, <= 4 thorough
 LAW(E_graph_sequences, ENUM, 16, ENUM_T, 0, NT, 3, true) { static std::unordered_map<uint64_t, uint64_t> seen; sequences(c, true, 3, 4, seen); }
 
-// The laws allocate many small containers per case: keep the allocation stack traces of ASan short (detection is unchanged).
-extern "C" const char* __asan_default_options() { return "malloc_context_size=3"; }
-
 static struct Init { Init() { vf::G().resetHook = [] { vf::quietBpp(); vf::installAudit(); }; } } init_;
 VF_MAIN("C14")
